@@ -25,6 +25,7 @@ EXPLANATION += ' R04.8: the whole-line rewrite of an inlined call is refused for
 EXPLANATION += " R04.9: in the anchored modules and the shared text utilities no source text is cut with str.splitlines() (it breaks at form feed, \x1c-\x1e, \x85, U+2028/9; rope's and the ast's line numbers count \n only)."
 EXPLANATION += " R04.10: inside the loop over the files of a refactoring no handler swallows an error (a file is never silently left out of a multi-file change)."
 EXPLANATION += " R04.11: program text that is moved is not whitespace-normalised (the result of `\" \".join(text.split())` is only ever compared, never emitted)."
+EXPLANATION += " R04.13: the statements of an inlined body are put in front of the logical statement that holds the call, indented like that statement's FIRST line (logical_line_in(...)[0]), not like the physical line of the call."
 EXPLANATION += " R04.12 (=R19.16): the body of an inlined function is re-indented line by line only outside string literals."
 ASSUMPTIONS = ["alias tracking is flow-insensitive (x = self.attr makes x an alias for the whole method)",
                "dict()/list()/set()/.copy()/sorted()/slicing create copies"]
@@ -315,5 +316,75 @@ def check(ctx, res) -> None:
     from .common import string_aware_indent_rule as _si
 
     _si(ctx, res, "R04.12", sorted(m for m in ctx.idx.units if m.startswith("rope.refactor")))
+    _indent_of_the_statement_rule(ctx, res)
 
 
+
+
+def _indent_of_the_statement_rule(ctx, res) -> None:
+    """R04.13: when the value of an inlined call is used, the body's statements go in front of the whole logical statement and
+    must sit at that statement's depth.  A call on a continuation line (`total = base + (\n        f(x))`) has another
+    indentation than the statement: taken from the call's physical line, the inserted statements are absorbed by a block
+    above (an `if` that is not taken) or do not parse.  In the handler of an occurrence, the line handed to get_indents
+    is the first component of logical_line_in(...) -- followed through tuple unpacking and private steps read in place --
+    and never the result of get_line_number(<offset of the call>)."""
+    idx = ctx.idx
+    f = idx.need_func("rope.refactor.inline._InlineFunctionCallsForModuleHandle.occurred_outside_skip")
+    node = common.inlined(idx, f)
+
+    def origins(name: str, depth: int = 0) -> Set[str]:
+        out: Set[str] = set()
+        if depth > 4:
+            return {"other"}
+        for a in walk_local(node):
+            if not isinstance(a, ast.Assign):
+                continue
+            for t in a.targets:
+                pos = None
+                if isinstance(t, ast.Name) and t.id == name:
+                    val = a.value
+                elif isinstance(t, ast.Tuple):
+                    pos = next((i for i, e in enumerate(t.elts) if isinstance(e, ast.Name) and e.id == name), None)
+                    if pos is None:
+                        continue
+                    val = a.value.elts[pos] if isinstance(a.value, ast.Tuple) and len(a.value.elts) == len(t.elts) else a.value
+                    if val is not a.value:
+                        pos = None
+                else:
+                    continue
+                if isinstance(val, ast.Subscript) and isinstance(val.slice, ast.Constant) and isinstance(val.value, ast.Call):
+                    pos, val = val.slice.value, val.value
+                if isinstance(val, ast.Name):
+                    if val.id != name:
+                        out |= origins(val.id, depth + 1)
+                elif isinstance(val, ast.Call) and call_name(val) == "logical_line_in":
+                    out.add("logical-first" if pos == 0 else "logical-last" if pos == 1 else "other")
+                elif isinstance(val, ast.Call) and call_name(val) == "get_line_number":
+                    out.add("physical")
+                else:
+                    out.add("other")
+        return out
+
+    n = 0
+    for c in calls_in(node):
+        if call_name(c) != "get_indents" or len(c.args) < 2:
+            continue
+        n += 1
+        arg = c.args[1]
+        og = origins(arg.id) if isinstance(arg, ast.Name) else (
+            {"logical-first"} if isinstance(arg, ast.Subscript) and isinstance(arg.value, ast.Call) and call_name(arg.value) == "logical_line_in"
+            and isinstance(arg.slice, ast.Constant) and arg.slice.value == 0 else
+            {"physical"} if isinstance(arg, ast.Call) and call_name(arg) == "get_line_number" else {"other"})
+        key = f"occurred_outside_skip|indent-of-the-statement#{n}"
+        where = f"{f.unit.rel}:{c.lineno}"
+        if og == {"logical-first"}:
+            res.add("R04.13", key, True, where, "the indentation of the inserted statements is that of the first line of the logical statement", function=f.qualname)
+        elif og & {"physical", "logical-last"}:
+            res.add("R04.13", key, False, where,
+                    f"`{ast.unparse(c)}`: the line comes from {'get_line_number(<offset of the call>)' if 'physical' in og else 'the LAST line of the logical statement'}, not from the first "
+                    "line of the logical statement: for a call on a continuation line the statements of the inlined body are inserted in front of the statement with the "
+                    "continuation line's indentation -- they are absorbed by the block above (`if flag:` not taken: the side effects vanish) or the file no longer parses",
+                    function=f.qualname)
+        else:
+            res.undecided("R04.13", key, where, f"the origin of the line handed to get_indents is not recognised ({sorted(og)})")
+    res.floor("R04.13", "indentation lookups in the occurrence handler of inline", n, 1)
